@@ -384,15 +384,15 @@ Proof. intros H closing q r Hw. unfold conn_survives. rewrite H, Hw. reflexivity
 Definition example_xs : list exchange :=
   let q := mkReq (b "GET") 1 1 false in
   let qh := mkReq (b "HEAD") 1 1 false in
-  let r1 := mkResp 1 1 200 (b "200 OK") [(b "X-A", [b "1"])] (-1)%Z true [(b "X-T", [])] [] false false in
-  let r2 := mkResp 1 1 200 (b "200 OK") [(b "X-A", [b "1"; b "2"])] (-1)%Z true [(b "X-T", [b "v"])] [b "hello"; b "wor"] false false in
-  let r3 := mkResp 1 1 200 (b "200 OK") [] (-1)%Z false [] [b "plain"] false true in
+  let r1 := mkResp 1 1 200 (b "200 OK") [(b "X-A", [b "1"])] (-1)%Z true [(b "X-T", [])] [] false false [] in
+  let r2 := mkResp 1 1 200 (b "200 OK") [(b "X-A", [b "1"; b "2"])] (-1)%Z true [(b "X-T", [b "v"])] [b "hello"; b "wor"] false false [(b "X-Late", [b "l"])] in
+  let r3 := mkResp 1 1 200 (b "200 OK") [] (-1)%Z false [] [b "plain"] false true [] in
   [mkX false qh r1 [b "X-T"]; mkX false q r2 []; mkX false q r3 []].
 
 Lemma example_ok :
   Forall (x_ok true) example_xs /\ length (served example_xs) = 3%nat /\
   map (fun x => o_body (x_obs x)) example_xs = [[]; b "hellowor"; b "plain"] /\
-  map (fun x => o_trailers (x_obs x)) example_xs = [[]; [(b "X-T", b "v")]; []].
+  map (fun x => o_trailers (x_obs x)) example_xs = [[]; [(b "X-Late", b "l"); (b "X-T", b "v")]; []].
 Proof.
   split; [|repeat split; vm_compute; reflexivity].
   repeat (apply Forall_cons || apply Forall_nil); (repeat split; vm_compute; reflexivity).
